@@ -529,6 +529,7 @@ type stream struct {
 	// owned by serverConn's serve loop:
 	bodyBytes        int64   // body bytes seen so far
 	declBodyBytes    int64   // or -1 if undeclared
+	bodyUnreturned   int     // bytes written to body whose conn-level flow control is not yet returned
 	flow             outflow // limits writing from Handler to client
 	inflow           inflow  // what the client is allowed to POST/etc to us
 	state            streamState
@@ -1586,7 +1587,11 @@ func (sc *serverConn) closeStream(st *stream, err error) {
 	if p := st.body; p != nil {
 		// Return any buffered unread bytes worth of conn-level flow control.
 		// See golang.org/issue/16481
-		sc.sendWindowUpdate(nil, p.Len())
+		//
+		// The bytes stay readable after CloseWithError: noteBodyRead must not
+		// return them a second time, so account for them per stream.
+		sc.sendWindowUpdate(nil, st.bodyUnreturned)
+		st.bodyUnreturned = 0
 
 		p.CloseWithError(err)
 	}
@@ -1778,6 +1783,7 @@ func (sc *serverConn) processData(f *DataFrame) error {
 			if wrote != len(data) {
 				panic("internal error: bad Writer")
 			}
+			st.bodyUnreturned += wrote
 		}
 
 		// Return any padded flow control now, since we won't
@@ -2395,7 +2401,11 @@ func (sc *serverConn) noteBodyReadFromHandler(st *stream, n int, err error) {
 
 func (sc *serverConn) noteBodyRead(st *stream, n int) {
 	sc.serveG.check()
-	sc.sendWindowUpdate(nil, n) // conn-level
+	// Bytes that were still buffered when the stream closed have already been
+	// returned at connection level by closeStream.
+	connN := min(n, st.bodyUnreturned)
+	st.bodyUnreturned -= connN
+	sc.sendWindowUpdate(nil, connN) // conn-level
 	if st.state != stateHalfClosedRemote && st.state != stateClosed {
 		// Don't send this WINDOW_UPDATE if the stream is closed
 		// remotely.
